@@ -33,9 +33,7 @@ from vlib import hx
 NOW = 4000000000            # what the model is told "now" is; later than every explicit time
 CONDS = ["always", "newer", "older", "exists", "not_exists"]
 TIMES = {"older": 1000, "equal": 2000, "newer": 3000}
-ADDITIONS = os.path.join(vlib.VERIF, "findings", "known_findings_additions.json")
-SIG_UNSCANNED = "C19/known/mirror-file-in-the-way-of-unscanned-directory"
-LEANCHECKER_MODULES = ["FsProofs.C19", "FsProofs.Lemmas.CopyLemmas", "FsProofs.Lemmas.MirrorLemmas"]
+LEANCHECKER_MODULES = ["FsProofs.C19", "FsProofs.Lemmas.CopyDirLemmas", "FsProofs.Lemmas.MirrorLemmas"]
 
 
 # ----------------------------------------------------------------------------- trees
@@ -611,7 +609,6 @@ def judge(rep, case, out, model, model2=None):
                    case["workers"])
     oracle_bad = []      # the property fails on the real code
     corr_bad = []        # model and real code disagree
-    sig = None
     post = out["post_dst"]
 
     if out["pre_src"] is None or out["pre_dst"] is None:
@@ -686,8 +683,6 @@ def judge(rep, case, out, model, model2=None):
             want, want_copied = oracle_mirror(case, out["src_times"], out["dst_times"])
             if not same_tree(want, post):
                 oracle_bad.append("destination is not the replica: got %r want %r" % (brief(post), brief(want)))
-                if unscanned_dir_case(case):
-                    sig = SIG_UNSCANNED
             if not case["walker"] and not case["copy_if_newer"]:
                 # the property text, literally: paths, types and bytes of dst == src
                 if [e[:3] for e in post] != [e[:3] for e in canon(case["src"])]:
@@ -703,23 +698,16 @@ def judge(rep, case, out, model, model2=None):
             else:
                 if out["post_dst2"] != post:
                     oracle_bad.append("second mirror changed the destination: %r -> %r" % (brief(post), brief(out["post_dst2"])))
-                    if unscanned_dir_case(case):
-                        sig = SIG_UNSCANNED
                 _, want_copied2 = oracle_mirror(case, out["src_times"], out["dst_times"], dst=post)
                 if out["copied2"] != sorted(want_copied2):
                     oracle_bad.append("second mirror copied %r, the rule selects %r" % (out["copied2"], sorted(want_copied2)))
                 if case["copy_if_newer"] and not out["copied2"]:
                     rep.count("second-mirror-copied-nothing")
-            known_class = unscanned_dir_case(case)
-            if known_class:
-                # the open finding's class: only the property oracle judges it (the model transcribes the
-                # defective loop; once the code is repaired the oracle passes and nothing is reported)
-                rep.count("known-class:unscanned-directory")
-            if not known_class and not same_tree(model[1], post):
+            if not same_tree(model[1], post):
                 corr_bad.append("destination tree: model %r, code %r" % (brief(model[1]), brief(post)))
-            if not known_class and model[2] != out["copied1"]:
+            if model[2] != out["copied1"]:
                 corr_bad.append("copied set: model %r, code %r" % (model[2], out["copied1"]))
-            if not known_class and model2 is not None and out["res2"][0] == "ok":
+            if model2 is not None and out["res2"][0] == "ok":
                 rep.evaluations += 1
                 if not same_tree(model2[1], out["post_dst2"]):
                     corr_bad.append("second mirror, destination tree: model %r, code %r" % (brief(model2[1]), brief(out["post_dst2"])))
@@ -729,7 +717,7 @@ def judge(rep, case, out, model, model2=None):
     if oracle_bad and len(rep.violations) < 8:
         rep.violation(case_json(case, out, model), "%s — %s" % (describe(case), "; ".join(oracle_bad)[:500]),
                       found_input=True,
-                      signature=sig or "C19/%s/%s" % (case.get("api", op), oracle_bad[0].split(":")[0][:40]))
+                      signature="C19/%s/%s" % (case.get("api", op), oracle_bad[0].split(":")[0][:40]))
     elif corr_bad and len(rep.violations) < 8:
         rep.disagreements_checked += 1
         rep.violation(case_json(case, out, model),
@@ -756,15 +744,6 @@ def brief(tree):
     if tree is None:
         return None
     return [(e[1] + "/") if e[0] == "D" else "%s=%s@%s" % (e[1], e[2].decode("latin-1"), e[3]) for e in tree][:14]
-
-
-def unscanned_dir_case(case):
-    """the recorded defect: a destination *file* sits where the walker yields a source directory that
-    it does not scan (max_depth); mirror removes the file and never creates the directory"""
-    sel = select(case["src"], "", case["walker"])
-    dfiles, _ = tree_maps(case["dst"])
-    sd, _, scanned = sel
-    return any(r in dfiles and r not in scanned for r in sd)
 
 
 # ----------------------------------------------------------------------------- generators
@@ -898,10 +877,25 @@ def small_pairs():
     return list(itertools.product(fs3, fs3))
 
 
+def directed_cases():
+    """one minimal case per past failure (runs first, does not depend on the seed)"""
+    cases = []
+    # fixed finding (/repo c47cb90): a destination file in the way of a source directory that the walker
+    # yields but does not scan — the directory must exist after the first mirror, the second changes nothing
+    src = [("D", "a"), ("F", "a/b", b"1", 2000)]
+    for dk in ("mem", "os", "sub-mem"):
+        for cin in (False, True):
+            for w in ("depth1", "depth0"):
+                cases.append(mirror_case("mem", dk, src, [("F", "a", b"file in the way", 1000)], w, cin, False, 0))
+    cases.append(mirror_case("mem", "mem", [("D", "a"), ("D", "a/q"), ("F", "a/q/b", b"1", 2000)],
+                             [("D", "a"), ("F", "a/q", b"x", 3000), ("F", "a/keep", b"k", 1000)], "depth2", False, True, 0))
+    return cases
+
+
 def gen_cases(tier, seed, deep):
     rng = vlib.rng_for(seed, "c19")
     quick = tier == "quick"
-    cases = []
+    cases = directed_cases()
     pairs = small_pairs()
     small_walkers = ["none", "filter-a", "exclude-dirs-b", "depth1"]
     rels = ["older", "equal", "newer"]
@@ -1096,32 +1090,8 @@ def condition_table(rep, drv):
 # ----------------------------------------------------------------------------- entry points
 
 
-def load_additions(rep):
-    """open findings proposed by this package (merged into known_findings.json by the integrator)"""
-    if os.path.exists(ADDITIONS):
-        have = set(f["signature"] for f in rep.open_findings)
-        for f in json.load(open(ADDITIONS)):
-            if f.get("property") == rep.prop_id and f["signature"] not in have:
-                rep.open_findings.append(f)
-
-
-def regression_pass(rep, drv):
-    """replay every recorded open finding once (prints KNOWN-FINDING while it still fails)"""
-    for f in list(rep.open_findings):
-        case = f.get("replay")
-        if not case or case.get("op") is None:
-            continue
-        case = dict(case)
-        case["src"] = tree_unjson(case["src"])
-        case["dst"] = tree_unjson(case["dst"])
-        out = run_real(case)
-        model = parse_model(case, drv.batch([model_request(case, out)])[0])
-        judge(rep, case, out, model)
-
-
 def run(rep, tier, seed, deep=False):
     drv = vlib.Driver()
-    load_additions(rep)
     rep.rule = (
         "all pairs of trees with <=3 nodes over {a,b} (source x destination; disjoint, overlapping, file-vs-directory "
         "conflicts, empty) on mem->mem x five conditions (copy_fs/copy_fs_if) and both copy_if_newer (mirror, run "
@@ -1140,7 +1110,6 @@ def run(rep, tier, seed, deep=False):
         "worker-count independence is C09's; workers=4 is only sampled",
     ]
     try:
-        regression_pass(rep, drv)
         condition_table(rep, drv)
         cases = gen_cases(tier, seed, deep)
         rep.programs = len(cases)
@@ -1171,7 +1140,6 @@ def run(rep, tier, seed, deep=False):
 
 def replay(rep, case):
     drv = vlib.Driver()
-    load_additions(rep)
     c = case.get("case", case)
     if c.get("op") == "necessary":
         condition_table(rep, drv)
